@@ -828,25 +828,28 @@ end FlowObs
 namespace FlowObs
 open Go Gen Hand Flow
 
-/-- Provider router: what `AuthorizeRefreshClient` establishes about the caller -/
+/-- Provider router: what `AuthorizeRefreshClient` establishes about the caller (derived from its characterisation
+    `C07.authorizeRefreshClient_eq`; no regenerated definition is unfolded here) -/
+theorem authorizeRefreshSpec_authAs {now : Int} {req : RefreshTokenRequest} {p : Provider} {r : RefreshReq} {c : OPClient}
+    (h : C07.authorizeRefreshSpec now req p = .ok (r, c)) :
+    p.store.TokenRequestByRefreshToken req.RefreshToken = .ok r ∧ Const.GrantTypeRefreshToken ∈ c.grants ∧
+    AuthAs now p req.ClientID req.ClientSecret req.ClientAssertionType req.ClientAssertion c := by
+  obtain ⟨h1, h2, h3⟩ := C07.authorizeRefreshSpec_ok h
+  refine ⟨h1, (C04.validateGrantType_iff (now := now)).1 h2, ?_⟩
+  rcases h3 with ⟨hty, hj, hpk, hk⟩ | ⟨hty, hget, hnpk, hrest⟩
+  · obtain ⟨j, hj', hc, hauth, _⟩ := C14.c14_private_key_client (now := now) (t := req.ClientAssertion) (p := p) hk
+    exact Or.inl ⟨hty, hpk, hj, j, hj', hc, hauth⟩
+  · refine Or.inr ⟨hty, hget, ?_⟩
+    rcases hrest with hn | ⟨hpost, hsec⟩
+    · exact Or.inl hn
+    · exact Or.inr ⟨hnpk, hpost, hsec⟩
+
 theorem authorizeRefreshClient_authAs {now : Int} {req : RefreshTokenRequest} {p : Provider} {r : RefreshReq} {c : OPClient}
     (h : AuthorizeRefreshClient now req p = .ok (r, c)) :
     p.store.TokenRequestByRefreshToken req.RefreshToken = .ok r ∧ Const.GrantTypeRefreshToken ∈ c.grants ∧
     AuthAs now p req.ClientID req.ClientSecret req.ClientAssertionType req.ClientAssertion c := by
-  unfold AuthorizeRefreshClient AuthorizeClientIDSecret at h
-  simp only [Provider.Storage, Provider.AuthMethodPrivateKeyJWTSupported, Provider.AuthMethodPostSupported, OPClient.AuthMethod] at h
-  repeat' (split at h <;> try (simp at h))
-  all_goals (
-    obtain ⟨rfl, rfl⟩ := h
-    refine ⟨C07.refreshByToken_ok (by assumption), (C04.validateGrantType_iff (now := now)).1 (by simp_all), ?_⟩
-    first
-      | (right; refine ⟨by simp_all, by assumption, ?_⟩
-         first
-           | (left; simp_all; done)
-           | (right; refine ⟨by simp_all [Const.AuthMethodNone, Const.AuthMethodPrivateKeyJWT, Const.AuthMethodPost], by simp_all, C04.match_secret (by assumption)⟩))
-      | (left
-         obtain ⟨j, hj, hc, hauth, _⟩ := C14.c14_private_key_client (now := now) (t := req.ClientAssertion) (p := p) (by assumption)
-         exact ⟨by simp_all, by simp_all, by simp_all, j, hj, hc, hauth⟩))
+  rw [C07.authorizeRefreshClient_eq] at h
+  exact authorizeRefreshSpec_authAs h
 
 /-- what a refresh that the token endpoint lets through has established - either router -/
 theorem refreshExchange_ok {now : Int} {rt : Router} {p : Provider} {req : RefreshTokenRequest} {ha : Bool} {i : IssueFor}
@@ -855,35 +858,22 @@ theorem refreshExchange_ok {now : Int} {rt : Router} {p : Provider} {req : Refre
       p.store.TokenRequestByRefreshToken req.RefreshToken = .ok r0 ∧ c.id = r0.clientID ∧
       Const.GrantTypeRefreshToken ∈ c.grants ∧ ValidateRefreshTokenScopes now req.Scopes r0 = .ok r1 ∧
       AuthAs now p req.ClientID req.ClientSecret req.ClientAssertionType req.ClientAssertion c := by
+  have hcur : Gen.refreshHandlerCurrent = "presented" := by decide
   cases rt with
   | provider =>
-    simp only [refreshExchange] at h
-    split at h; · simp at h
-    rename_i hsup
-    split at h; · simp at h
-    rename_i r1 c hv
-    simp only [issueForRefresh] at h
-    cases h
-    unfold ValidateRefreshTokenRequest at hv
-    simp only [OPClient.GetID, RefreshReq.GetClientID] at hv
-    split at hv; · simp at hv
-    rename_i htok
-    cases hac : AuthorizeRefreshClient now req p with
-    | error e => simp [hac] at hv
-    | ok rc =>
-      obtain ⟨r0, c'⟩ := rc
-      simp only [hac] at hv
-      by_cases hid : (c'.id != r0.clientID) = true
-      · simp [hid] at hv
-      · simp only [hid, Bool.false_eq_true, if_false] at hv
-        cases hvs : ValidateRefreshTokenScopes now req.Scopes r0 with
-        | error e => simp [hvs] at hv
-        | ok r1' =>
-          simp only [hvs] at hv
-          simp at hv
-          obtain ⟨rfl, rfl⟩ := hv
-          obtain ⟨h1, h2, h3⟩ := authorizeRefreshClient_authAs hac
-          exact ⟨r0, _, _, rfl, by simpa using hsup, by simpa using htok, h1, by simpa using hid, h2, hvs, h3⟩
+    simp only [refreshExchange, C07.validateRefreshTokenRequest_eq, issueForRefresh, hcur] at h
+    by_cases hsup : p.refreshSupported = true
+    · simp only [hsup, Bool.not_true, Bool.false_eq_true, if_false] at h
+      cases hv : C07.validateRefreshSpec now req p with
+      | error e => simp only [hv] at h; cases h
+      | ok rc =>
+        obtain ⟨r1, c⟩ := rc
+        simp only [hv] at h
+        cases h
+        obtain ⟨r0, htok, hauth, hid, hsc⟩ := C07.validateRefreshSpec_ok hv
+        obtain ⟨h1, h2, h3⟩ := authorizeRefreshSpec_authAs hauth
+        exact ⟨r0, r1, c, rfl, hsup, htok, h1, hid, h2, by rw [C07.validateRefreshTokenScopes_eq]; exact hsc, h3⟩
+    · simp [hsup] at h
   | legacy =>
     simp only [refreshExchange] at h
     split at h; · simp at h
@@ -891,24 +881,9 @@ theorem refreshExchange_ok {now : Int} {rt : Router} {p : Provider} {req : Refre
     split at h; · simp at h
     rename_i htok
     obtain ⟨hauth, hgrant⟩ := withClient_authAs hw (by decide) (by decide)
-    unfold LegacyRefreshToken issueForRefresh NewResponse at h
-    simp only [Provider.Storage, Provider.GrantTypeRefreshTokenSupported, OPClient.GetID, RefreshReq.GetClientID] at h
-    by_cases hsup : p.refreshSupported = true
-    · simp only [hsup, Bool.not_true, Bool.false_eq_true, if_false] at h
-      cases hr0 : RefreshTokenRequestByRefreshToken now p.store req.RefreshToken with
-      | error e => simp [hr0] at h
-      | ok r0 =>
-        simp only [hr0] at h
-        by_cases hid : (client.id != r0.clientID) = true
-        · simp [hid] at h
-        · simp only [hid, Bool.false_eq_true, if_false] at h
-          cases hr1 : ValidateRefreshTokenScopes now req.Scopes r0 with
-          | error e => simp [hr1] at h
-          | ok r1 =>
-            simp only [hr1] at h
-            simp at h; subst h
-            exact ⟨r0, r1, client, rfl, hsup, by simpa using htok, C07.refreshByToken_ok hr0, by simpa using hid, hgrant, hr1, hauth⟩
-    · simp [hsup] at h
+    rw [C07.legacyRefreshToken_eq] at h
+    obtain ⟨r0, r1, hi, hsup, hlook, hid, hsc⟩ := C07.legacyRefreshSpec_ok h
+    exact ⟨r0, r1, client, hi, hsup, by simpa using htok, hlook, hid, hgrant, by rw [C07.validateRefreshTokenScopes_eq]; exact hsc, hauth⟩
 
 end FlowObs
 
